@@ -29,6 +29,7 @@ import (
 	"path/filepath"
 	"regexp"
 	"runtime"
+	"runtime/pprof"
 	"sort"
 	"strings"
 	"sync"
@@ -97,8 +98,8 @@ func (e *engine) evaluate(k kase) {
 	replay := map[string]any{"part": "A", "group": k.group, "case": k.desc, "doc": k.doc}
 	switch {
 	case res.stage == "panic":
-		mm = &mismatch{k.idx, "load-panics: " + errorShape(res.err, e.tmp),
-			fmt.Sprintf("loading panics instead of returning an error: %s\n  case [%s] %s\n  config: %s", res.err, k.group, k.desc, render(k.doc)), replay}
+		mm = &mismatch{k.idx, "load-crashes: " + errorShape(res.err, e.tmp) + " @ " + res.frame,
+			fmt.Sprintf("loading crashes instead of returning an error: %s (at %s)\n  case [%s] %s\n  config: %s", res.err, res.frame, k.group, k.desc, render(k.doc)), replay}
 	case class == "invalid" && res.accepted:
 		mm = &mismatch{k.idx, "invalid-configuration-accepted: " + j.reasons(),
 			fmt.Sprintf("a configuration that violates [%s] is accepted by Config.Manager()\n  case [%s] %s\n  config: %s", j.reasons(), k.group, k.desc, render(k.doc)), replay}
@@ -261,12 +262,38 @@ func main() {
 		"Part C verdicts are crashes only; missing echoes and stop hangs are counted, never judged",
 	}
 
+	if pf := os.Getenv("C18_PROF"); pf != "" {
+		f, _ := os.Create(pf)
+		pprof.StartCPUProfile(f)
+		defer pprof.StopCPUProfile()
+	}
 	t0 := time.Now()
 	e.deadline = t0.Add(harness.Pick(c, 70*time.Second, 40*time.Minute))
 	partA(e)
 	partATime := time.Since(t0)
+	if os.Getenv("C18_PROF") != "" {
+		pprof.StopCPUProfile()
+		os.Exit(0)
+	}
 
 	sort.Slice(e.mismatches, func(i, k int) bool { return e.mismatches[i].idx < e.mismatches[k].idx })
+	confirmed := map[string]bool{}
+	for i := range e.mismatches {
+		m := &e.mismatches[i]
+		if !strings.HasPrefix(m.sig, "load-crashes: ") || confirmed[m.sig] {
+			continue
+		}
+		confirmed[m.sig] = true
+		// run the same document in a plain subprocess (no SetPanicOnFault): the real outcome
+		rp := m.replay.(map[string]any)
+		o := runSmoke(e, kase{doc: rp["doc"].(J)})
+		if o.crashed {
+			msg, frame := crashShape(o.stderr)
+			m.what += fmt.Sprintf("\n  confirmed in a separate process: it dies with exit code %d: %s at %s\n  crash dump (head):\n%s", o.exit, msg, frame, indent(headStr(o.stderr, 1800)))
+		} else {
+			m.what += "\n  (a separate process did not die on this document)"
+		}
+	}
 	for _, m := range e.mismatches {
 		c.Violation(m.sig, m.what, m.replay)
 	}
@@ -616,6 +643,7 @@ func partC(e *engine) {
 	}
 
 	ops := map[string]int{}
+	var noEcho []string
 	var ran, started, startFailed, stopHang, timeouts, crashes, notAccepted int64
 	var transitions int64
 	for i, o := range outs {
@@ -656,6 +684,9 @@ func partC(e *engine) {
 			for k, n := range o.res.Ops {
 				ops[k] += n
 				transitions += int64(n)
+				if strings.HasSuffix(k, ".noecho") || strings.HasSuffix(k, ".noreply") {
+					noEcho = append(noEcho, smokeKey(set[i])+" -> "+k)
+				}
 			}
 		}
 	}
@@ -671,7 +702,7 @@ func partC(e *engine) {
 	}
 	c.Part("C:smoke", map[string]any{
 		"configurations_in_smoke_set": len(set), "run": ran, "started": started, "a_service_failed_to_start": startFailed,
-		"worker_crashes": crashes, "stop_hangs": stopHang, "worker_timeouts": timeouts, "traffic_operations": opsOrdered,
+		"worker_crashes": crashes, "cases_without_echo": len(noEcho), "cases_without_echo_head": noEcho[:min(len(noEcho), 40)], "stop_hangs": stopHang, "worker_timeouts": timeouts, "traffic_operations": opsOrdered,
 		"script": "per TCP listener: one proxied connection with payload and echo, one garbage connection; per UDP listener: one datagram and its echo, four garbage datagrams (empty, 1 byte, 200 bytes, 1400 zero bytes), for tunnels one reply from a non-target source; then Stop",
 	})
 	for i, o := range outs {
